@@ -80,8 +80,7 @@ RET_UNDER = ['forall(0, len(method.args.args_list), lambda j: wf_tn_plain(method
              '(len(method.return_type.type1.template_params) >= 1 and wf_tn_plain(method.return_type.type1.template_params[0].typename)) '
              'if isinstance(method.return_type.type1, TemplatedType) else True',
              "wf_tn_plain(method.return_type.type2.typename) if not isinstance(method.return_type.type2, str) else True",
-             # known finding C06-templated-method-with-pair-return-crashes: `method` is rebound to its spelling
-             "not (isinstance(method, InstantiatedMethod) and len(method.instantiations) > 0 and not isinstance(method.return_type.type2, str))"]
+             ]
 contract('MatlabWrapper.wrap_collector_function_return', params={'method': METHODLIKE, 'instantiated_class': CLS}, returns='str',
          modifies=['alloc'], under=RET_UNDER,
          result_is='old(ml_return_body(method, instantiated_class))')
